@@ -9,14 +9,16 @@ variable {P : GSpec → Prop}
   (hspace : ∀ elems, (∀ g ∈ elems, P g) → P (.space elems))
   (hchoices : ∀ k cands ds so, (∀ c ∈ cands, P c) → P (.choices k cands ds so))
   (hfloat : ∀ lo hi, P (.float lo hi))
+  (hcustom : ∀ cid, P (.custom cid))
 
 set_option linter.unusedSectionVars false in
-include hspace hchoices hfloat in
+include hspace hchoices hfloat hcustom in
 mutual
   theorem GSpec.ind_g : (g : GSpec) → P g
     | .space elems => hspace elems (GSpec.ind_l elems)
     | .choices k cands ds so => hchoices k cands ds so (GSpec.ind_l cands)
     | .float lo hi => hfloat lo hi
+    | .custom cid => hcustom cid
   theorem GSpec.ind_l : (gs : List GSpec) → ∀ g ∈ gs, P g
     | [] => fun _ h => by cases h
     | g :: gs => fun k h => by
@@ -107,6 +109,9 @@ theorem enumG_length (g : GSpec) : ∀ n, sizeG g = some n → (enumG g).length 
     subst this
     simp [enumG, enumL_eq, enumMulti_length]
   | hfloat lo hi =>
+    intro n h
+    simp [sizeG] at h
+  | hcustom cid =>
     intro n h
     simp [sizeG] at h
 
